@@ -585,7 +585,12 @@ func PreprocessDeclarationsPrelude(baseURL string, declarations []pa.Compound, p
 			}
 			// Replace & selector by parent, in each selector of the list.
 			var declarationPrelude []Token
+			hasEmptySelector := false
 			for i, part := range pa.SplitOnComma(declaration.Prelude) {
+				if len(pa.RemoveWhitespace(part)) == 0 {
+					hasEmptySelector = true
+					break
+				}
 				if i > 0 {
 					declarationPrelude = append(declarationPrelude, pa.NewLiteral(",", pos11))
 				}
@@ -604,6 +609,11 @@ func PreprocessDeclarationsPrelude(baseURL string, declarations []pa.Compound, p
 					selectorPrelude = append([]Token{colon, is, pa.NewWhitespace(" ", pos11)}, selectorPrelude...)
 				}
 				declarationPrelude = append(declarationPrelude, selectorPrelude...)
+			}
+			if hasEmptySelector {
+				// an empty selector is invalid: it must not be read as the parent selector
+				logger.WarningLogger.Printf("Invalid nested selector '%s', empty selector \n", pa.Serialize(declaration.Prelude))
+				continue
 			}
 			contents, err := PreprocessDeclarationsPrelude(baseURL, pa.ParseBlocksContents(declaration.Content, false),
 				declarationPrelude)
